@@ -2593,9 +2593,13 @@ class SliceDataset(Dataset):
                 # itemgetter needs at least one argument
                 self._keys = ()
             else:
-                self._keys = operator.itemgetter(*self.slice)(keys)
+                # Assign the finished tuple at once: the workers of a thread
+                # prefetch share this object and must never see (or wrap
+                # again) the intermediate value.
+                selected = operator.itemgetter(*self.slice)(keys)
                 if len(self.slice) == 1:
-                    self._keys = (self._keys,)
+                    selected = (selected,)
+                self._keys = selected
         return self._keys
 
     def __len__(self):
